@@ -9,6 +9,15 @@ CHECKS = {
  "C20": dict(tech="explicit-state BFS over control-flow shapes (main/bare/subroutine), degenerate and long programs x configs; outcome class must be TEAL or a PyTeal error; valid shapes must be accepted",
              text="Bounded exhaustive exploration of every control-flow recipe up to the node bound in three placements (after a store, as first statement, inside a subroutine), hand-listed degenerate shapes, ill-formed programs and long programs, under every listed version/option; any exception other than PyTeal's own error types, and any rejection of a syntactically valid recipe, is a violation.",
              note="validity of a recipe is decided syntactically; runs with the default recursion limit; sizes above the stated bounds are not claimed", ref="2/C20"),
+ "C02": dict(tech="exhaustive enumeration of call-graph recipe families x configs x recursion arguments; execution on reference AVM with callsub/retsub boundary recording vs direct evaluator",
+             text="Bounded exhaustive exploration of call graphs (self and mutual recursion, arities 1-3, 0-3 locals, by-value / by-reference / ABI parameters, all return types, Return at every position, every call-site kind) under versions 4-10 and both calling conventions; compared with a Python-recursion reference and a frame invariant at every callsub/retsub boundary.",
+             note="trusts the reference AVM and the evaluator; recursion arguments 0..5; template families, not arbitrary bodies", ref="2/C02"),
+ "C04": dict(tech="exhaustive enumeration of recipes + constructor sweep x versions x modes; independent TEAL grammar + langspec table + exhaustive CFG walk of each emitted text",
+             text="Every text emitted for the recipe populations, for every public constructor at boundary immediates, and for label-stress shapes, under versions 2-10 and both modes, is parsed by an independent assembler front-end with a frozen langspec table; its CFG is walked exhaustively for termination / routine separation.",
+             note="langspec table written from the AVM spec and calibrated on the 185 golden TEAL files; itxn-specific field versions not modelled", ref="2/C04"),
+ "C05": dict(tech="per emitted program: explicit-state exploration of the abstract machine (pc, type stack, frame) to a fixpoint; plus dynamic type/underflow fault check on the input alphabet",
+             text="For every emitted program of the recipe populations and configurations, all reachable abstract states of every routine are explored (one height per pc, no pop below the routine's floor, no definitely wrong operand type, consistent retsub heights, frame accesses inside the frame); programs without anytype expressions are also executed and must not fault with a type or underflow error.",
+             note="opcode stack signatures from vf/avm/spec.py; callsub summaries inferred; slot contents are untyped (load yields unknown)", ref="2/C05"),
 }
 NOT_YET = {}
 props = [json.loads(l) for l in open(os.path.join(HERE, "properties.jsonl"))]
